@@ -10,11 +10,14 @@ here and is tied to the code by the correspondence stream only.
 -/
 namespace DepsDev.Model.Maven
 
+def allZero : List Nat → Bool
+  | [] => true
+  | x :: xs => x == 0 && allZero xs
+
 /-- Maven numeric comparison: element-wise, a missing element counts as 0. -/
 def cmpNums : List Nat → List Nat → Ordering
-  | [], [] => .eq
-  | [], y :: ys => if y = 0 then cmpNums [] ys else .lt
-  | x :: xs, [] => if x = 0 then cmpNums xs [] else .gt
+  | [], ys => if allZero ys then .eq else .lt
+  | x :: xs, [] => if allZero (x :: xs) then .eq else .gt
   | x :: xs, y :: ys => if x < y then .lt else if x > y then .gt else cmpNums xs ys
 
 /-- `mavenExtension.num(i)`: the i-th number, 0 when absent. -/
